@@ -83,6 +83,13 @@ def sites(ctx, files):
                     inner = ob[0][1] if ob[0][0] == "await" else ob[0]
                     if inner[0] != "call" or not inner[1].startswith("zksync_"):
                         continue
+                    # a cancellation / deadline (ctx::OrCanceled) is not a failure of the operation
+                    rty = ""
+                    for st in f.blocks[bb]["s"]:
+                        if st["k"] == "assign" and st["r"]["k"] == "discr":
+                            rty = f.locals[st["r"]["p"]["l"]].s
+                    if rty.replace(" ", "").endswith(",zksync_concurrency::ctx::Canceled>"):
+                        continue
                     for tgt, labs in si[1].items():
                         if "Err" in labs and not (set(labs) - {"Err"}):
                             cfg = cfg or ctx.cfg(f)
